@@ -163,6 +163,8 @@ def histories():
                   note="the same field is added in version 1 and removed (AbiRemoved) in version 2"))
     H.append(Hist("h11", [LF("a", "u32"), LF("b", "u16", removed=1), LF("c", "u16"), LF("d", "u32")], 2, tier="t",
                   note="repr(Rust) struct: packed-primitive run directly before and after an AbiRemoved field"))
+    H.append(Hist("h12", [LF("a", "u8"), LF("b", [(0, "u8", None), (2, "u16", None)]), LF("c", "u8", added=1, default=("val", "5")), LF("z", "u16")], 3, tier="q",
+                  note="type change in version 2 of a field that exists since version 0: the old type spans two versions (versions_as 0..1)"))
     H.append(Hist("h8", [LF("a", "u32"), LF("b", "u32", removed=1), LF("c", "u32")], 2, repr_c=True, tier="q",
                   note="packed repr(C): middle field removed (AbiRemoved): version 0 wire != memory layout of version 1"))
     return H
@@ -350,6 +352,21 @@ def emit():
                 body.append("match (&x, &y) { (%s, %s) => { assert!(%s, \"C18: enum payload read by the older definition differs\"); } _ => panic!(\"C18: variant changed when writing an older version\") }" % (pat_x, pat_y, " && ".join(conds) or "true"))
                 body += ['kani::cover!(true, "reached end");']
                 c18[tier].append("kproof!(%s_%s_n%d_k%d, 5, {\n        %s\n    });" % (name, v[0], n, k, "\n        ".join(body)))
+    c18p = {"q": [], "t": []}
+    for ent in ENUMS:
+        (name, tier, note, variants, nver) = ent[:5]
+        n = nver - 1
+        for k in range(nver):
+            for idx, v in enumerate(variants):
+                vadd = v[2] if len(v) > 2 else 0
+                if vadd <= k: continue
+                fn_ = [(ft, fadd) for (ft, fadd) in v[1] if fadd <= n]
+                c18p[tier].append("#[kani::proof]\n    #[kani::should_panic]\n    #[kani::stub(std::collections::hash_map::RandomState::new, crate::common::fixed_keys)]\n    #[kani::stub(alloc::fmt::format, crate::common::fmt_stub)]\n    #[kani::unwind(5)]\n    pub fn %s_%s_absent_k%d() {\n        let x = %s::v%d::E::%s%s;\n        // documented: writing a variant that does not exist in the written version panics; silently emitting it would\n        // produce data the older definition cannot read\n        let _ = ser::<%s::v%d::E, 32>(&x, %d);\n    }" % (
+                    name, v[0], k, name, n, v[0], "(%s)" % ", ".join(any_expr(ft) for (ft, _) in fn_) if fn_ else "", name, n, k))
+    out.append("pub mod c18p {\n    use super::*;")
+    for t, hs in c18p.items():
+        out.append("    pub mod %s {\n    use super::*;\n    %s\n    }" % (t, "\n    ".join(hs)))
+    out.append("}")
     for (m, d) in (("c03", c03), ("c18", c18)):
         out.append("pub mod %s {\n    use super::*;" % m)
         for t, hs in d.items():
